@@ -1,7 +1,7 @@
 //! Limb multiplication
 
 use crate::{
-    Checked, CheckedMul, Limb, Wrapping, Zero,
+    Checked, CheckedMul, ConstChoice, Limb, Word, Wrapping, Zero,
     primitives::{mac, mul_wide},
 };
 use core::ops::{Mul, MulAssign};
@@ -19,7 +19,9 @@ impl Limb {
     /// Perform saturating multiplication.
     #[inline(always)]
     pub const fn saturating_mul(&self, rhs: Self) -> Self {
-        Limb(self.0.saturating_mul(rhs.0))
+        // `Word::saturating_mul` compiles to a branch on the overflow flag; mask instead.
+        let (lo, hi) = self.mul_wide(rhs);
+        Limb(lo.0 | ConstChoice::from_word_nonzero(hi.0).if_true_word(Word::MAX))
     }
 
     /// Perform wrapping multiplication, discarding overflow.
